@@ -119,7 +119,8 @@ prop(
     level="proof",
     design_ref="DESIGN.md section 3, C09",
     groups=[(["./pipeline"], r"^(\(\*RetriableBatcher\)\.Out|\(\*Batch\)\.reset|\(\*Router\)\.(Stop|Fail|IsDeadQueueAvailable|Start))$"),
-            (["./fd"], r"^\(\*FileD\)\.getStaticInfo$")],
+            (["./fd"], r"^\(\*FileD\)\.getStaticInfo$"),
+            (["./plugin/output/elasticsearch", "./pipeline"], r"^\(\*Plugin\)\.(out|Start|Start\$1)$")],
     canaries=[("./pipeline", "replay/C09/zz_replay_c09_test.go", "TestVerifReplayC09"),
               ("./pipeline", "replay/C09/zz_dq_self_feedback_test.go", "TestVerifDeadQueueSelfFeedback"),
               ("./fd", "replay/C09/zz_dq_config_shared_test.go", "TestVerifDeadQueueConfigSharedAcrossPipelines")],
